@@ -15,7 +15,8 @@ REPO = os.environ.get("RB_REPO", "/repo")
 COQ = os.path.join(VERIF, "coq")
 BUILD = os.path.join(VERIF, ".build")
 HARNESS = os.path.join(VERIF, "harness")
-EVIDENCE = os.path.join(VERIF, "evidence")
+# evidence of a run against another checkout (RB_REPO: seeded-change evaluation) never lands in /verif/evidence
+EVIDENCE = os.path.join(VERIF, "evidence") if REPO == "/repo" else os.path.join(BUILD, "alt-evidence")
 REPLAYS = os.path.join(VERIF, "replays")
 CORPUS = os.path.join(VERIF, "corpus")
 KNOWN = os.path.join(VERIF, "KNOWN_FINDINGS.txt")
